@@ -399,6 +399,18 @@ func c15Profiles(tier Tier) []*explore.Profile {
 			if o.thorough {
 				acts = append(acts, accountMenu(w, o)...)
 			}
+			// zero quantities (the sender side accepts them): nothing may be left behind anywhere,
+			// with or without an attached call, on a user and on a contract of either shard
+			for _, to := range [][]byte{uni.B0, uni.C1, uni.S0, uni.S1c} {
+				for _, call := range [][][]byte{nil, {[]byte("f")}} {
+					if held(w, uni.A0, tS1) > 0 {
+						acts = append(acts, uni.NFTTransfer(uni.A0, to, uni.S, 1, 0, call...), uni.Multi(uni.A0, to, []uni.Ent{{Tok: uni.S, Nonce: 1, Q: 0}}, call...))
+					}
+					if held(w, uni.A0, tF) > 0 {
+						acts = append(acts, uni.ESDTTransfer(uni.A0, to, uni.F, 0, call...), uni.Multi(uni.A0, to, []uni.Ent{{Tok: uni.F, Nonce: 0, Q: 0}}, call...))
+					}
+				}
+			}
 			// the whole holding leaves through a transfer flagged return-after-error (a same-shard
 			// return executes the paying side with the flag set)
 			for _, from := range users(o) {
